@@ -525,7 +525,9 @@ func (b *BoxFields) RoundedContentBox() RoundedBox {
 
 // Return whether this box is floated.
 func (b *BoxFields) IsFloated() bool {
-	return b.Style.GetFloat() != "none"
+	// (not "footnote": a footnote box is moved to the footnote area of the page)
+	float := b.Style.GetFloat()
+	return float == "left" || float == "right"
 }
 
 // Return whether this box is a footnote.
